@@ -27,6 +27,7 @@ class Store(object):
     """One world's storage: a SimFS plus (lazily) a real temp directory."""
     def __init__(self, short_seed=None, record=True):
         self.fs = SimFS(short_seed=short_seed, record=record)
+        self.fs.clock = lib.SimClock()
         self.tmp = None
         self._open_real = []
 
